@@ -531,7 +531,13 @@ struct Value {
         type = T_DATA;
         data.clear();
         // The rest of the symbols are converted witness program bytes.
-        if (ConvertBits<5, 8, false>([&](unsigned char c) { data.push_back(c); }, bech.begin() + 1, bech.end())) {
+        if (!ConvertBits<5, 8, false>([&](unsigned char c) { data.push_back(c); }, bech.begin() + 1, bech.end())) {
+            // (BIP173: more than 4 bits or non-zero bits of padding; the converted prefix used to be returned as if it were the program)
+            fprintf(stderr, "failed to bech32(m)-decode string: invalid padding of the data part\n");
+            data.clear();
+            return;
+        }
+        {
             if (version == 0) {
                 {
                     if (data.size() == 20) {
